@@ -9,7 +9,14 @@ INF/NaN/1e400/''/x); arbitrary bytes, truncations and byte flips go in at the SA
 
 Oracle (independent of pywbem):
  * exception class: only the documented pywbem.Error subclasses may come out; str()/repr() of them must work;
- * result shape: a structural checker of the documented result type per operation (written from the docs);
+ * result shape: a structural checker of the documented result type per operation (written from the docs); for list
+   results EVERY element is checked (instance-level requests: only instances / instance paths, class-level: only
+   (class path, class) tuples / class paths).  Result lists of length 0..4 are sent with one element of another kind
+   (instance among classes inside VALUE.OBJECTWITHPATH, CLASSPATH among INSTANCEPATHs, CLASSNAME among INSTANCENAMEs,
+   VALUE.NAMEDINSTANCE among VALUE.INSTANCEWITHPATH, wrappers with children of the wrong kind, ...) at the first, a
+   middle and the last position; a result of the right type that is shorter than the list sent counts as well (the odd
+   element was dropped silently).  Single-object operations get several objects / objects of another kind; array output
+   parameters of InvokeMethod get one odd item (every element must be of the declared numeric/boolean/datetime type);
  * outcome reference model: HTTP status -> HTTPError/AuthError, Content-type -> HeaderParseError, libxml2 (lxml)
    says ill-formed -> XMLParseError, a hand-written model of the DSP0200 envelope (CIM/MESSAGE/SIMPLERSP/
    xMETHODRESPONSE, versions, NAME, ERROR -> CIMError(code, description)); untouched baselines must return the
@@ -52,8 +59,15 @@ R = Run('all 41 public WBEMConnection operations (60 variants: instance/class le
         '(property/qualifier/method/parameter/keybinding/path/RETURNVALUE/PARAMVALUE/ERROR of every CIM type and child '
         'kind); 20 HTTP statuses x 11 header sets, 15 Content-types, redirects, 26 requests/urllib3 exceptions; 126 '
         'garbage/ill-formed-UTF-8/ill-formed-XML bodies, all truncations and byte flips of a reply; 62 raw HTTP byte '
-        'streams + stalls over a loopback socket; nesting depth <= 400 (quick: reduced pools/depths, representative '
-        'variants for the byte level; thorough: full pools/snippets, depth 3000, 60000 seeded pairs of mutations)')
+        'streams + stalls over a loopback socket; nesting depth <= 400; result lists of length 0..4 of every '
+        'list-returning variant with one element of another kind (59 element shapes: instance/class content of '
+        'VALUE.OBJECTWITHPATH/-LOCALPATH/VALUE.OBJECT/OBJECTPATH, INSTANCENAME/CLASSNAME, INSTANCEPATH/CLASSPATH, '
+        'VALUE.NAMEDINSTANCE/VALUE.INSTANCEWITHPATH, wrappers with wrong children) at the first/middle/last position, every '
+        'element of the result checked, dropped elements detected; GetInstance/GetClass/GetQualifier/CreateInstance given '
+        '1..4 objects of every shape; InvokeMethod array output parameters/return values of 7 types with one odd item '
+        '(quick: reduced pools/depths, representative variants for the byte level, odd elements of the same tag or easily '
+        'confused; thorough: full pools/snippets, depth 3000, 60000 seeded pairs of mutations, every odd element shape, '
+        'lists up to 5, two odd elements)')
 
 THOROUGH = R.tier == 'thorough'
 RND = random.Random(R.seed)
@@ -2044,10 +2058,322 @@ def socket_case(spec, key, exp, payload):
 
 
 # ---------------------------------------------------------------------------------------------------------
+# result lists with one element of the wrong kind (DTD-valid or nearly valid, semantically wrong)
+# ---------------------------------------------------------------------------------------------------------
+
+def kb_i(i):
+    return keyb('Key', N('KEYVALUE', {'VALUETYPE': 'string', 'TYPE': 'string'}, 'k%d' % i))
+
+
+def iname_i(i):
+    return iname('CIM_Foo', kb_i(i))
+
+
+def ipath_i(i):
+    return N('INSTANCEPATH', None, nsp(), iname_i(i))
+
+
+def lipath_i(i):
+    return N('LOCALINSTANCEPATH', None, lnsp(), iname_i(i))
+
+
+def inst_i(i):
+    return inst(prop('Key', 'string', 'k%d' % i), prop('Num', 'uint8', str(i)))
+
+
+def cname_i(i):
+    return cname('CIM_C%d' % i)
+
+
+def cpath_i(i):
+    return N('CLASSPATH', None, nsp(), cname_i(i))
+
+
+def lcpath_i(i):
+    return N('LOCALCLASSPATH', None, lnsp(), cname_i(i))
+
+
+def klass_i(i):
+    return N('CLASS', {'NAME': 'CIM_C%d' % i, 'SUPERCLASS': 'CIM_Base'}, qual(),
+             N('PROPERTY', {'NAME': 'Key', 'TYPE': 'string'}, qual('Key', 'boolean', V_('true'))))
+
+
+def _w(tag, *builders):
+    return lambda i: N(tag, None, *[b(i) for b in builders])
+
+
+OWP, OWLP, VO, OP, NI, IWP = ('VALUE.OBJECTWITHPATH', 'VALUE.OBJECTWITHLOCALPATH', 'VALUE.OBJECT', 'OBJECTPATH',
+                              'VALUE.NAMEDINSTANCE', 'VALUE.INSTANCEWITHPATH')
+# name -> builder(i) of one child of IRETURNVALUE.  The part of the name before '/' is the element tag family:
+# members of one family pass a "children of IRETURNVALUE are all the same element" rule, the others do not.
+HET = {
+    'OWP/inst': _w(OWP, ipath_i, inst_i), 'OWP/class': _w(OWP, cpath_i, klass_i),
+    'OWP/ipath+class': _w(OWP, ipath_i, klass_i), 'OWP/cpath+inst': _w(OWP, cpath_i, inst_i),
+    'OWP/iname+inst': _w(OWP, iname_i, inst_i), 'OWP/lipath+inst': _w(OWP, lipath_i, inst_i),
+    'OWP/lcpath+class': _w(OWP, lcpath_i, klass_i), 'OWP/inst-only': _w(OWP, inst_i), 'OWP/cpath-only': _w(OWP, cpath_i),
+    'OWP/inst+ipath': _w(OWP, inst_i, ipath_i), 'OWP/empty': _w(OWP),
+    'OWLP/inst': _w(OWLP, lipath_i, inst_i), 'OWLP/class': _w(OWLP, lcpath_i, klass_i),
+    'OWLP/lipath+class': _w(OWLP, lipath_i, klass_i), 'OWLP/lcpath+inst': _w(OWLP, lcpath_i, inst_i),
+    'OWLP/ipath+inst': _w(OWLP, ipath_i, inst_i), 'OWLP/cname+class': _w(OWLP, cname_i, klass_i),
+    'VO/inst': _w(VO, inst_i), 'VO/class': _w(VO, klass_i), 'VO/iname': _w(VO, iname_i), 'VO/inst+class': _w(VO, inst_i, klass_i),
+    'VO/empty': _w(VO),
+    'OP/inst': _w(OP, ipath_i), 'OP/class': _w(OP, cpath_i), 'OP/iname': _w(OP, iname_i), 'OP/cname': _w(OP, cname_i),
+    'OP/lipath': _w(OP, lipath_i), 'OP/lcpath': _w(OP, lcpath_i), 'OP/ipath+cpath': _w(OP, ipath_i, cpath_i), 'OP/empty': _w(OP),
+    'INSTANCENAME': iname_i, 'CLASSNAME': cname_i,
+    'INSTANCEPATH': ipath_i, 'INSTANCEPATH/cname': _w('INSTANCEPATH', lambda i: nsp(), cname_i),
+    'INSTANCEPATH/lnsp': _w('INSTANCEPATH', lambda i: lnsp(), iname_i),
+    'CLASSPATH': cpath_i, 'CLASSPATH/iname': _w('CLASSPATH', lambda i: nsp(), iname_i),
+    'LOCALINSTANCEPATH': lipath_i, 'LOCALCLASSPATH': lcpath_i,
+    'NI': _w(NI, iname_i, inst_i), 'NI/iname+class': _w(NI, iname_i, klass_i), 'NI/cname+inst': _w(NI, cname_i, inst_i),
+    'NI/ipath+inst': _w(NI, ipath_i, inst_i), 'NI/inst+iname': _w(NI, inst_i, iname_i), 'NI/inst-only': _w(NI, inst_i),
+    'IWP': _w(IWP, ipath_i, inst_i), 'IWP/cpath+inst': _w(IWP, cpath_i, inst_i), 'IWP/ipath+class': _w(IWP, ipath_i, klass_i),
+    'IWP/cpath+class': _w(IWP, cpath_i, klass_i), 'IWP/iname+inst': _w(IWP, iname_i, inst_i), 'IWP/inst-only': _w(IWP, inst_i),
+    'INSTANCE': inst_i, 'CLASS': klass_i,
+    'QDECL': lambda i: qdecl('Q%d' % i, 'string', N('SCOPE', {'CLASS': 'true'}), V_('d')),
+    'VALUE': lambda i: V_('v%d' % i), 'VALUE.NULL': lambda i: N('VALUE.NULL'),
+    'VALUE.ARRAY': lambda i: N('VALUE.ARRAY', None, V_('a'), V_('b')),
+    'VALUE.REFERENCE/inst': _w('VALUE.REFERENCE', ipath_i), 'VALUE.REFERENCE/class': _w('VALUE.REFERENCE', cpath_i),
+}
+# the element of the baseline reply of a variant, and the elements most easily confused with it
+HET_NORMAL = {'namedinstances': 'NI', 'instancenames': 'INSTANCENAME', 'objwithpath_inst': 'OWP/inst', 'objwithpath_class': 'OWP/class',
+              'objectpath_inst': 'OP/inst', 'objectpath_class': 'OP/class', 'valueobject_inst': 'VO/inst', 'instwithpath': 'IWP',
+              'instancepaths': 'INSTANCEPATH', 'instances': 'INSTANCE', 'classes': 'CLASS', 'classnames': 'CLASSNAME',
+              'qualdecls': 'QDECL', 'instance': 'INSTANCE'}
+HET_CONFUSED = {'NI': ('IWP', 'INSTANCE', 'OWP/inst', 'CLASS'), 'INSTANCENAME': ('CLASSNAME', 'INSTANCEPATH', 'OP/inst', 'INSTANCE'),
+                'OWP/inst': ('OWLP/inst', 'VO/inst', 'IWP', 'INSTANCE', 'OP/inst'), 'OWP/class': ('OWLP/class', 'VO/class', 'CLASS', 'OP/class'),
+                'OWLP/inst': ('OWP/inst', 'VO/inst'), 'OWLP/class': ('OWP/class', 'VO/class'),
+                'OP/inst': ('INSTANCEPATH', 'INSTANCENAME', 'CLASSPATH', 'OWP/inst'), 'OP/class': ('CLASSPATH', 'CLASSNAME', 'INSTANCEPATH'),
+                'VO/inst': ('OWP/inst', 'OWLP/inst', 'INSTANCE', 'CLASS', 'OWP/class'), 'IWP': ('NI', 'OWP/inst', 'OWP/class', 'INSTANCE', 'CLASS'),
+                'INSTANCEPATH': ('CLASSPATH', 'INSTANCENAME', 'LOCALINSTANCEPATH', 'OP/inst', 'OP/class'),
+                'INSTANCE': ('CLASS', 'NI', 'VO/inst', 'INSTANCENAME'), 'CLASS': ('INSTANCE', 'CLASSNAME', 'VO/class', 'OWP/class', 'QDECL'),
+                'CLASSNAME': ('INSTANCENAME', 'CLASSPATH', 'CLASS', 'VALUE', 'OP/class'), 'QDECL': ('CLASS', 'VALUE', 'INSTANCE')}
+# replies that are equally valid for the operation (DSP0200 allows several element kinds)
+HET_ALT_NORMAL = {'Associators/inst': ('OWLP/inst',), 'Associators/class': ('OWLP/class',), 'References/inst': ('OWLP/inst',),
+                  'References/class': ('OWLP/class',), 'ExecQuery': ('OWP/inst', 'OWLP/inst'),
+                  'IterQueryInstances/fallback': ('OWLP/inst',)}
+SCALAR_OPS = ('GetInstance', 'GetClass', 'GetQualifier', 'CreateInstance')
+
+
+def family(nm):
+    return nm.split('/')[0]
+
+
+def result_items(spec, val):
+    for f in ('instances', 'paths'):
+        if hasattr(val, f):
+            return getattr(val, f)
+    if spec.meth == 'IterQueryInstances' and isinstance(val, tuple):
+        return val[0]
+    return val
+
+
+def odd_positions(n):
+    return sorted({0, n // 2, n - 1})
+
+
+def het_case(spec, key, elems, explen):
+    """One reply whose IRETURNVALUE holds `elems`.  A pywbem.Error or a result entirely of the documented element type
+    is fine (case() judges that); a result of the right type but with fewer/more elements than were sent means the
+    odd element was dropped or duplicated on the way."""
+    reply = Reply(doc(spec.root(kids=[irv(*elems)] + spec.params())))
+    kind, val = case(spec, key, reply)
+    if kind == 'ret' and explen is not None:
+        try:
+            ok = spec.check(val) is True
+            n = len(result_items(spec, val))
+        except Exception:
+            return kind, val
+        if ok and n != explen:
+            first, plan = plan_for(spec, reply)
+            V('mixed-list-element-silently-dropped-' + spec.meth, case=repr(key), outcome='returned %d elements, %d expected: %s'
+              % (n, explen, _short(val, 300)), **describe(spec, first, plan))
+    return kind, val
+
+
+def sec_mixed_lists():
+    """Lists of length 1..4 (thorough: ..5) of the element the operation normally returns, with one (thorough: also two)
+    elements of another kind at the first, a middle and the last position; every list-returning variant."""
+    for spec in SPECS:
+        if spec.rsptag != 'IMETHODRESPONSE' or spec.kind not in HET_NORMAL or spec.key in SCALAR_OPS:
+            continue
+        is_iter = spec.meth.startswith('Iter')
+        normals = (HET_NORMAL[spec.kind],) + (HET_ALT_NORMAL.get(spec.key, ()) if THOROUGH or not is_iter else ())
+        for normal in normals:
+            nb = HET[normal]
+            # homogeneous lists are valid replies and calibrate the length of the result
+            explen = {}
+            for n in range(0, 6 if THOROUGH else 5):
+                kind, val = case(spec, ('mixed', normal, 'homogeneous', n),
+                                 Reply(doc(spec.root(kids=[irv(*[nb(i) for i in range(n)])] + spec.params()))), 'return',
+                                 'list of %d valid %s elements' % (n, normal))
+                if kind == 'ret':
+                    try:
+                        explen[n] = len(result_items(spec, val))
+                    except Exception:
+                        pass
+            if THOROUGH:
+                odds = [o for o in HET if o != normal]
+                lengths = (1, 2, 3, 4, 5)
+            else:
+                odds = [o for o in HET if o != normal and family(o) == family(normal)]
+                odds += [o for o in HET_CONFUSED.get(normal, ()) if o not in odds]
+                if is_iter or normal != normals[0]:
+                    odds = odds[:4] + list(HET_CONFUSED.get(normal, ())[:1])
+                lengths = (1, 3) if is_iter else (1, 2, 3, 4)
+            for odd in odds:
+                ob = HET[odd]
+                for n in lengths:
+                    for pos in odd_positions(n):
+                        elems = [ob(i) if i == pos else nb(i) for i in range(n)]
+                        het_case(spec, ('mixed', normal, odd, n, pos), elems, explen.get(n))
+                if THOROUGH:
+                    for n in (2, 3, 4, 5):      # two odd elements
+                        for p1, p2 in {(0, n - 1), (0, 1), (n - 2, n - 1), (n // 2, n - 1)}:
+                            if p1 < p2:
+                                elems = [ob(i) if i in (p1, p2) else nb(i) for i in range(n)]
+                                het_case(spec, ('mixed2', normal, odd, n, p1, p2), elems, explen.get(n))
+            # the odd elements in an IRETURNVALUE of their own, before and after the regular one
+            for odd in odds if THOROUGH else odds[:3]:
+                for order in (0, 1):
+                    irvs = [irv(nb(0), nb(1)), irv(HET[odd](2))]
+                    case(spec, ('mixed-two-irv', normal, odd, order), Reply(doc(spec.root(kids=irvs[::1 - 2 * order] + spec.params()))))
+
+
+def sec_scalar_results():
+    """Operations with a single object as result, given several objects, objects of another kind, or a mixture."""
+    for key in SCALAR_OPS:
+        spec = SPEC[key]
+        normal = HET_NORMAL[spec.kind]
+        nb = HET[normal]
+        for n in (1, 2, 3, 4):
+            case(spec, ('scalar', 'homogeneous', n), Reply(doc(spec.root(kids=[irv(*[nb(i) for i in range(n)])]))))
+        for odd, ob in HET.items():
+            if odd == normal:
+                continue
+            shapes = [[ob(0)], [nb(0), ob(1)], [ob(0), nb(1)], [ob(0), ob(1)]]
+            if THOROUGH:
+                shapes += [[nb(0), nb(1), ob(2)], [ob(0), nb(1), nb(2)], [nb(0), ob(1), nb(2)], [ob(0), ob(1), ob(2), ob(3)]]
+            for j, elems in enumerate(shapes):
+                case(spec, ('scalar', odd, j), Reply(doc(spec.root(kids=[irv(*elems)]))))
+                if THOROUGH and j < 2:
+                    case(spec, ('scalar-two-irv', odd, j), Reply(doc(spec.root(kids=[irv(e) for e in elems]))))
+
+
+# InvokeMethod: arrays in output parameters; (PARAMTYPE, valid item builder, [odd item builders])
+def _vref(x):
+    return N('VALUE.REFERENCE', None, x)
+
+
+INVOKE_ARRAYS = [
+    ('uint8', lambda i: V_(str(i)), {'text-x': lambda i: V_('x'), 'empty': lambda i: V_(''), 'range': lambda i: V_('256'),
+                                     'null': lambda i: N('VALUE.NULL'), 'real': lambda i: V_('1.5'), 'bool': lambda i: V_('true'),
+                                     'nested': lambda i: N('VALUE.ARRAY', None, V_('1')), 'ref': lambda i: _vref(ipath_i(i)),
+                                     'instance': inst_i, 'novalue': lambda i: N('VALUE')}),
+    ('sint64', lambda i: V_(str(-i)), {'text-x': lambda i: V_('x'), 'range': lambda i: V_('9223372036854775808'),
+                                       'null': lambda i: N('VALUE.NULL'), 'hex': lambda i: V_('0x1G')}),
+    ('real32', lambda i: V_('%d.5' % i), {'text-x': lambda i: V_('x'), 'null': lambda i: N('VALUE.NULL'), 'empty': lambda i: V_('')}),
+    ('boolean', lambda i: V_('true'), {'text-x': lambda i: V_('x'), 'empty': lambda i: V_(''), 'one': lambda i: V_('1'),
+                                       'null': lambda i: N('VALUE.NULL'), 'ref': lambda i: _vref(ipath_i(i))}),
+    ('string', lambda i: V_('s%d' % i), {'null': lambda i: N('VALUE.NULL'), 'ref': lambda i: _vref(ipath_i(i)), 'instance': inst_i,
+                                         'nested': lambda i: N('VALUE.ARRAY', None, V_('1')), 'classname': cname_i}),
+    ('datetime', lambda i: V_('2024010112000%d.000000+000' % i), {'text-x': lambda i: V_('x'), 'null': lambda i: N('VALUE.NULL'),
+                                                                    'interval': lambda i: V_('00000001000000.000000:000'),
+                                                                    'empty': lambda i: V_('')}),
+    ('reference', lambda i: _vref(ipath_i(i)), {'classref': lambda i: _vref(cpath_i(i)), 'localref': lambda i: _vref(lipath_i(i)),
+                                                 'nameref': lambda i: _vref(iname_i(i)), 'value': lambda i: V_('x'),
+                                                 'uri': lambda i: V_('//srv1/root/cimv2:CIM_Foo.Key="k1"'), 'null': lambda i: N('VALUE.NULL'),
+                                                 'bare-iname': iname_i, 'bare-ipath': ipath_i, 'emptyref': lambda i: N('VALUE.REFERENCE'),
+                                                 'ref-inst': lambda i: _vref(inst_i(i)), 'instance': inst_i}),
+]
+
+
+def invoke_typed_ok(v, t, depth=0):
+    """v is the value of an output parameter / return value the reply declared as PARAMTYPE t."""
+    if v is None:
+        return True
+    if t in ('string', 'char16', 'reference'):
+        # documented as "CIM data type" only: pywbem hands back what the value element held, also a reference in a
+        # parameter declared as string and a string in one declared as reference -- within the documented type
+        return ok_cimdata(v)
+    if isinstance(v, list):
+        return depth == 0 and all(invoke_typed_ok(x, t, 1) for x in v)
+    if t != 'boolean' and isinstance(v, bool):
+        return False
+    return isinstance(v, TYPE_CLASSES[t])
+
+
+def invoke_case(spec, key, kids, t, shape):
+    """shape: 'array' | 'scalar' | None (anything of type t) for output parameter 'o'; 'rv' checks the return value."""
+    reply = Reply(doc(spec.root(kids=kids)))
+    kind, val = case(spec, key, reply)
+    if kind != 'ret' or not ok_invoke(val):
+        return
+    v = val[0] if shape == 'rv' else val[1].get('o') if 'o' in val[1] else None
+    bad = None
+    if not invoke_typed_ok(v, t):
+        bad = 'not-of-the-declared-type'
+    elif shape in ('scalar', 'rv') and isinstance(v, list):
+        bad = 'list-for-a-scalar'
+    if bad:
+        first, plan = plan_for(spec, reply)
+        what = 'return-value' if shape == 'rv' else 'output-parameter'
+        V('InvokeMethod-%s-%s-%s' % (what, t, bad), case=repr(key), outcome='returned ' + _short(val, 400),
+          **describe(spec, first, plan))
+
+
+def sec_invoke_arrays():
+    specs = [SPEC['InvokeMethod/inst']] + ([SPEC['InvokeMethod/class']] if THOROUGH else [])
+    rv = N('RETURNVALUE', {'PARAMTYPE': 'uint32'}, V_('0'))
+    for spec in specs:
+        for t, nb, odds in INVOKE_ARRAYS:
+            arr = 'VALUE.REFARRAY' if t == 'reference' else 'VALUE.ARRAY'
+            for n in range(0, 6 if THOROUGH else 5):
+                for withrv in (True, False) if THOROUGH else (True,):
+                    kids = ([rv.copy()] if withrv else []) + [pv('o', t, N(arr, None, *[nb(i) for i in range(n)]))]
+                    kind, val = case(spec, ('invoke-array', t, 'homogeneous', n, withrv), Reply(doc(spec.root(kids=kids))), 'return',
+                                     'array output parameter of %d valid items' % n)
+                    if kind == 'ret' and not (isinstance(val[1].get('o'), list) and len(val[1]['o']) == n and invoke_typed_ok(val[1]['o'], t)):
+                        V('InvokeMethod-array-output-parameter-%s-value-differs' % t, outcome='returned ' + _short(val, 400),
+                          reply=_short(doc(spec.root(kids=kids))))
+            for oname, ob in odds.items():
+                for n in (1, 2, 3, 4) + ((5,) if THOROUGH else ()):
+                    for pos in odd_positions(n):
+                        items = [ob(i) if i == pos else nb(i) for i in range(n)]
+                        invoke_case(spec, ('invoke-array', t, oname, n, pos), [rv.copy(), pv('o', t, N(arr, None, *items))], t, 'array')
+                        if THOROUGH or (n, pos) in ((1, 0), (3, 1)):
+                            # the other array element kind, and no declared type
+                            other = 'VALUE.ARRAY' if arr == 'VALUE.REFARRAY' else 'VALUE.REFARRAY'
+                            invoke_case(spec, ('invoke-array-other', t, oname, n, pos), [rv.copy(), pv('o', t, N(other, None, *items))], t, None)
+                            case(spec, ('invoke-array-untyped', t, oname, n, pos),
+                                 Reply(doc(spec.root(kids=[pv('o', None, N(arr, None, *items))]))))
+                # scalar positions: the odd item as the only child, two children, and as RETURNVALUE
+                invoke_case(spec, ('invoke-scalar', t, oname), [rv.copy(), pv('o', t, ob(0))], t, None)
+                invoke_case(spec, ('invoke-scalar-two', t, oname), [rv.copy(), pv('o', t, nb(0), ob(1))], t, None)
+                invoke_case(spec, ('invoke-rv', t, oname), [N('RETURNVALUE', {'PARAMTYPE': t}, ob(0))], t, 'rv')
+                invoke_case(spec, ('invoke-rv-two', t, oname), [N('RETURNVALUE', {'PARAMTYPE': t}, nb(0), ob(1))], t, 'rv')
+            # a list where a scalar is documented: RETURNVALUE holding an array, several RETURNVALUEs
+            for n in (0, 1, 2):
+                invoke_case(spec, ('invoke-rv-array', t, n), [N('RETURNVALUE', {'PARAMTYPE': t}, N(arr, None, *[nb(i) for i in range(n)]))],
+                            t, 'rv')
+            invoke_case(spec, ('invoke-rv-twice', t), [N('RETURNVALUE', {'PARAMTYPE': t}, nb(0)), N('RETURNVALUE', {'PARAMTYPE': t}, nb(1))],
+                        t, 'rv')
+            invoke_case(spec, ('invoke-rv-after-pv', t), [pv('o', t, nb(0)), N('RETURNVALUE', {'PARAMTYPE': t}, nb(1))], t, None)
+        # embedded objects in arrays: instances and classes mixed, and text that is no object
+        for attr in ('EmbeddedObject', 'EMBEDDEDOBJECT'):
+            for emb in ('instance', 'object'):
+                for oname, otxt in (('class', emb_class_text()), ('text', 'plain'), ('empty', ''), ('xml-other', '<VALUE>x</VALUE>'),
+                                    ('null', None), ('iname', ser(iname()))):
+                    for n in (1, 2, 3, 4):
+                        for pos in odd_positions(n):
+                            items = [(N('VALUE.NULL') if otxt is None else V_(otxt)) if i == pos else V_(ser(inst_i(i))) for i in range(n)]
+                            kids = [rv.copy(), N('PARAMVALUE', {'NAME': 'o', 'PARAMTYPE': 'string', attr: emb}, N('VALUE.ARRAY', None, *items))]
+                            case(spec, ('invoke-emb-array', attr, emb, oname, n, pos), Reply(doc(spec.root(kids=kids))))
+
 
 def main():
     before = set(threading.enumerate())
-    parts = [sec_baselines, sec_cross, sec_envelope, sec_fragments, sec_http, sec_bytes, sec_depth, sec_loopback]
+    parts = [sec_baselines, sec_cross, sec_envelope, sec_fragments, sec_http, sec_bytes, sec_depth, sec_loopback,
+             sec_mixed_lists, sec_scalar_results, sec_invoke_arrays]
     if THOROUGH:
         parts.append(sec_pairs)
     for part in parts:
